@@ -44,6 +44,10 @@ func callName(op Op) string {
 		return "AddLambdaNode"
 	case "P":
 		return "AddPassthroughNode"
+	case "GN":
+		return "AddGraphNode"
+	case "CG":
+		return "AppendGraph"
 	case "E":
 		return "AddEdge"
 	case "B":
@@ -221,13 +225,98 @@ func postAdds(fe string) []Op {
 
 // optClass groups compile options that give the same run-time semantics.
 func optClass(opt string) string {
-	switch opt {
-	case "", "name", "store", "any":
-		return "pregel"
-	case "max", "any+max":
+	k := parseK(opt)
+	switch {
+	case k.mode == "all" && k.max:
+		return "all+max"
+	case k.mode == "all":
+		return "all"
+	case k.max:
 		return "pregel-max"
 	}
-	return opt
+	return "pregel"
+}
+
+// keyedPassthroughNear: does call i of ops touch a passthrough node that was declared with an input or
+// output key (Compile and the chain's appending calls: is there such a node at all).
+func keyedPassthroughNear(ops []Op, i int) bool {
+	keyed := map[string]bool{}
+	any := false
+	for _, o := range ops[:i+1] {
+		if h := parseH(o.H); (h.inKey || h.outKey) && (o.K == "P" || o.K == "CP" || (o.K == "WN" && o.Typ == "P")) {
+			keyed[o.Key] = true
+			any = true
+		}
+	}
+	switch op := ops[i]; op.K {
+	case "E":
+		return keyed[op.From] || keyed[op.To]
+	case "B":
+		if keyed[op.From] {
+			return true
+		}
+		for _, e := range op.Ends {
+			if keyed[e] {
+				return true
+			}
+		}
+		return false
+	case "L", "P", "GN":
+		return false
+	}
+	return any
+}
+
+// panicRule names the reference's view of a call that panicked.
+func panicRule(ops []Op, i int, rule string) string {
+	if rule != "" {
+		return rule
+	}
+	if keyedPassthroughNear(ops, i) {
+		return "well-formed-call-at-keyed-passthrough"
+	}
+	return "well-formed-call"
+}
+
+// mappedAtPassthrough: the sequence declares an input with a field mapping on or from a passthrough node.
+func mappedAtPassthrough(ops []Op) bool {
+	pass := map[string]bool{}
+	for _, o := range ops {
+		if o.K == "WN" && o.Typ == "P" {
+			pass[o.Key] = true
+		}
+	}
+	for _, o := range ops {
+		if o.Sub != nil && mappedAtPassthrough(o.Sub.Ops) {
+			return true
+		}
+		for _, in := range o.In {
+			if in.mapped() && (pass[o.Key] || pass[in.From]) {
+				return true
+			}
+		}
+	}
+	return false
+}
+
+// acceptedSignature: the signature of "the reference rejects (rule), eino returned nil".
+func acceptedSignature(fe string, op Op, rule string) string {
+	site := fe + "-" + callName(op)
+	// an ill-formed graph that was added as a node: named after the innermost graph and its rule
+	for strings.HasPrefix(rule, "nested-") {
+		cut := strings.IndexByte(rule, '/')
+		site, rule = rule[:cut]+"-compile", rule[cut+1:]
+	}
+	switch {
+	case strings.HasSuffix(rule, "branch-condition-type-vs-inferred-passthrough"):
+		// one root cause, reachable through Graph.AddBranch and Chain.AppendBranch
+		return "C20/accepted-ill-formed/AddBranch/branch-condition-type-vs-inferred-passthrough"
+	case rule == "sticky":
+		return "C20/sticky/" + fe + "/call-accepted-after-an-earlier-error"
+	case rule == "compiled":
+		return "C20/compiled/" + fe + "/" + callName(op) + "-accepted-after-successful-compile"
+	}
+	return "C20/accepted-ill-formed/" + site + "/" + rule
 }
 
 // postOps: what is tried on a builder after its first successful Compile, in
@@ -249,6 +338,10 @@ func (c *checker) checkSeq(s *Seq) {
 	ops := s.all()
 	np := len(s.Prelude)
 	rep := c.rep
+	reps := reps
+	if s.Reps > 0 {
+		reps = s.Reps
+	}
 
 	// ---- reference prediction for the calls of the sequence
 	ref := newReference(s.FE, s.State)
@@ -352,14 +445,18 @@ func (c *checker) checkSeq(s *Seq) {
 			}
 		}
 		if acceptReject(at.vec) != acceptReject(first.vec[:len(ops)]) {
-			rep.Violation("C20/nondeterministic-outcome/"+s.FE,
+			sig := "C20/nondeterministic-outcome/" + s.FE
+			if mappedAtPassthrough(ops) {
+				sig += "/field-mapped-input-at-passthrough"
+			}
+			rep.Violation(sig,
 				fmt.Sprintf("the same construction sequence gave different accept/reject vectors on two attempts: %s vs %s (o=accepted e=error p=panic n=no result)\ncalls: %s",
 					first.vec[:len(ops)], at.vec, s.Text),
 				witness{Seq: s, Vector: string(first.vec[:len(ops)]) + " / " + string(at.vec)})
 			break
 		}
 	}
-	rep.Count("attempts", reps)
+	rep.Count("attempts", int64(reps))
 	rep.Count("calls_observed", int64(len(ops)*reps+len(ext)-len(ops)))
 
 	text := func(i int) string {
@@ -370,12 +467,12 @@ func (c *checker) checkSeq(s *Seq) {
 	}
 
 	for _, st := range strays {
-		rule := preds[st.at].rule
-		if rule == "" {
-			rule = "well-formed-call"
-		}
 		op := ext[st.at]
-		rep.Violation("C20/panic/"+s.FE+"-"+callName(op)+"/"+rule,
+		site := s.FE + "-" + callName(op) + "/" + panicRule(ext, st.at, preds[st.at].rule)
+		if st.res.Where != "" {
+			site = st.res.Where
+		}
+		rep.Violation("C20/panic/"+site,
 			fmt.Sprintf("%s panicked on one of %d attempts of the same sequence (an error on the first attempt): %s\nfirst eino frame: %s\n%s",
 				callName(op), reps, firstLine(st.res.Panic.Value), st.res.Panic.FirstFrame("github.com/cloudwego/eino/"), text(st.at)),
 			witness{Seq: s, Position: st.at - np, Call: op.String(), Observed: "PANIC on a later attempt", Vector: string(first.vec)})
@@ -398,11 +495,11 @@ func (c *checker) checkSeq(s *Seq) {
 		w := witness{Seq: s, Position: i - np, Call: op.String(), Predicted: predText, Observed: classText(cls), Vector: string(first.vec)}
 		switch {
 		case cls == 'p':
-			rule := p.rule
-			if rule == "" {
-				rule = "well-formed-call"
+			site := s.FE + "-" + callName(op) + "/" + panicRule(ext, i, p.rule)
+			if res.Where != "" {
+				site = res.Where
 			}
-			rep.Violation("C20/panic/"+s.FE+"-"+callName(op)+"/"+rule,
+			rep.Violation("C20/panic/"+site,
 				fmt.Sprintf("%s panicked instead of returning an error (reference: %s): %s\nfirst eino frame: %s\n%s",
 					callName(op), predText, firstLine(res.Panic.Value), res.Panic.FirstFrame("github.com/cloudwego/eino/"), text(i)),
 				w)
@@ -410,15 +507,7 @@ func (c *checker) checkSeq(s *Seq) {
 		case p.na:
 			// nothing to compare
 		case p.rule != "" && cls == 'o':
-			sig := "C20/accepted-ill-formed/" + s.FE + "-" + callName(op) + "/" + p.rule
-			if strings.HasSuffix(p.rule, "branch-condition-type-vs-inferred-passthrough") {
-				// one root cause, reachable through Graph.AddBranch and Chain.AppendBranch
-				sig = "C20/accepted-ill-formed/AddBranch/branch-condition-type-vs-inferred-passthrough"
-			} else if p.rule == "sticky" {
-				sig = "C20/sticky/" + s.FE + "/call-accepted-after-an-earlier-error"
-			} else if p.rule == "compiled" {
-				sig = "C20/compiled/" + s.FE + "/" + callName(op) + "-accepted-after-successful-compile"
-			}
+			sig := acceptedSignature(s.FE, op, p.rule)
 			rep.Violation(sig, fmt.Sprintf("%s returned nil, reference: %s\n%s\nobserved vector: %s", op, predText, text(i), first.vec), w)
 			agree = false
 		case p.rule == "" && cls == 'e':
@@ -437,9 +526,18 @@ func (c *checker) checkSeq(s *Seq) {
 			continue
 		}
 		rule := p.rule
-		if strings.HasPrefix(rule, "chain-deferred-error/") {
-			rep.Count("rule/"+rule, 1)
-			rule = "chain-deferred-error"
+		if strings.HasPrefix(rule, "nested-") {
+			// the rule of the innermost graph is what is counted, and that it was met in a nested graph
+			for strings.HasPrefix(rule, "nested-") {
+				rule = rule[strings.IndexByte(rule, '/')+1:]
+			}
+			rep.Count("rule-in-nested-graph/"+rule, 1)
+		}
+		for _, group := range []string{"chain-deferred-error", "cycle-in-all-predecessor-mode"} {
+			if strings.HasPrefix(rule, group+"/") {
+				rep.Count("rule/"+rule, 1)
+				rule = group
+			}
 		}
 		rep.Count("rule/"+rule, 1)
 		// "the first error sticks": on the Graph front end every later call returns that very error
